@@ -9,7 +9,7 @@ here = os.path.dirname(os.path.dirname(os.path.abspath(__file__)))
 rows = []
 for d in sorted(glob.glob(os.path.join(here, "seeded", "M*"))):
     meta = json.load(open(os.path.join(d, "meta.json")))
-    if str(meta.get("status", "")).startswith("rejected"):
+    if str(meta.get("status", "")).startswith(("rejected", "known-miss")):
         print(meta["id"], "skipped (%s)" % meta["status"])
         continue
     p = subprocess.run([os.path.join(here, "tools", "eval_mutant.py"), d], stdout=subprocess.PIPE, stderr=subprocess.STDOUT)
